@@ -1,5 +1,6 @@
 import Mkdb.Props.C11
 import Mkdb.Proofs.Forest
+import Mkdb.Proofs.RefineScan
 /-!
 # C01 — table contents always equal what the statement history implies
 
@@ -177,3 +178,21 @@ example :
   decide
 
 end Mkdb.Tree
+
+namespace Mkdb.Refine
+open Mkdb.Store Mkdb.Tree Mkdb.Page
+
+/-- **C01.heap_scan_is_live** (the levels theorems reach the heap model): whenever the page heap of a
+store holds a well-formed tree `t` - every page of `t` is what the engine sees at its offset - the
+heap model's `scanRight` from `t`'s root (what SELECT, UPDATE and DELETE read a table with) returns
+exactly `live t`, the plain list without tombstones, never panics and never runs out of fuel, and
+leaves the heap holding `t`.  For trees of any depth up to the fuel bound (64 levels). -/
+theorem C01_heap_scan_is_live (s : Store) (t : Levels) (nf : Nat) (hH : Holds s t) (hI : Inv t nf)
+    (hF : Filed s) (hdepth : t.inner.length + 1 ≤ treeFuel) (hlen : t.leaves.length ≤ scanFuel) :
+    ∃ res s', scanRight (rootOff t) s = .ok res s' ∧ res.map (·.1) = live t ∧ Holds s' t :=
+  scanRight_live s t nf hH hI hF hdepth hlen
+
+/-- non-vacuity: the sample tree laid out on disk -/
+example : Holds sampleStore sampleTree ∧ Filed sampleStore := ⟨sample_holds, sample_filed⟩
+
+end Mkdb.Refine
